@@ -330,3 +330,33 @@ Definition Excl15 (w : world) : Prop :=
 Definition stoppers (w : world) : nat :=
   length (filter (fun x => match pc x with Stw _ => true | _ => false end) (ths w)).
 Definition all_done (w : world) : bool := forallb (fun x => is_done (pc x) || is_notstarted (pc x)) (ths w).
+
+(* ------------------------------------------------------------------ the two known windows (C15) *)
+(* (1) a thread between its paused-load (which returned false) and ctx.store(None) whose flag has since been set;
+   (2) a thread that is running but not yet registered while some stop-the-world section is in progress *)
+Definition is_exit_checked (p : tpc) : bool := match p with SpExitChecked | PollExitChecked => true | _ => false end.
+Definition is_stw_pc (p : tpc) : bool := match p with Stw _ => true | _ => false end.
+Definition stw_any (w : world) : bool := existsb (fun x => is_stw_pc (pc x)) (ths w).
+Definition in_known_window (w : world) (x : thd) : bool :=
+  (is_exit_checked (pc x) && paused x) || (stw_any w && live x && negb (reg x)).
+Definition known_window (w : world) : bool := existsb (in_known_window w) (ths w).
+(* no world along the run (including the first and the last) is in a known window *)
+Fixpoint window_free (cfg : config) (sched : list tid) (w : world) : bool :=
+  negb (known_window w) &&
+  match sched with [] => true | t :: r => window_free cfg r (Conc.exec1 world (wstep cfg) t w) end.
+
+(* threads the stopper has already found stopped in its first pass and has not resumed yet *)
+Definition covered (s : spc) (t : tid) : bool :=
+  match s with
+  | SWait p k => if p =? 1 then t <? k else true
+  | SAccess p k => if p =? 1 then t <=? k else true
+  | SWaitLock p => negb (p =? 1)
+  | SThunk | SOwnResume | SResumeLock => true
+  | SResume k => k <=? t
+  | _ => false
+  end.
+
+
+(* a window-free run with a spawn, a global update and the stopper's accesses (non-vacuity of the C15 theorems) *)
+Definition wf_progs : list (list act) := [[ASpawn 1; AUpdate; AAlloc true]; [ACompute; APrim; ACompute; ACompute]].
+Definition wf_sched : list tid := repeat 0 5 ++ repeat 0 12 ++ [1;1;1] ++ repeat 0 12.
